@@ -136,7 +136,11 @@ def run_unit(u):
                     v[3 * j + g] = np.sqrt(m[j])
                 lhs += cflat(np.dot(D0, v))
             verdict, mdl, idx = assert_equal(res, "acoustic_zero_modes", lhs, [0.0] * len(lhs), A + S, tol=TOL)
-            _record(res, u, "acoustic_zero_modes", verdict, None, replayable=False)
+            if verdict == "sat":
+                ok2, what = replay_acoustic(gid, sid)
+                (res.violations if ok2 else res.unconfirmed).append({"key": "%s:acoustic_zero_modes:%s" % (PID, "/".join(str(t) for t in u[1:])), "what": what, "replay": {"unit": [str(t) for t in u]}})
+            else:
+                _record(res, u, "acoustic_zero_modes", verdict, None, replayable=False)
         elif kind == "scaling":
             xs, fc = case.sym_full_fc()
             A = box(xs)
@@ -228,6 +232,26 @@ def _masses_setter(case, res, u):
     if not ok:
         raise HarnessError("u2s map does not preserve species")
     res.twins.append({"name": "masses distinct symbols", "verdict": "sat" if n_p >= 1 else "unsat"})
+
+
+@symnp.outside_session
+def replay_acoustic(gid, sid):
+    """concrete: a pair-spring model (translationally periodic, permutation symmetric, acoustic sum rule by construction)
+    gives D(0) (sqrt(m_j) e_alpha) = 0"""
+    from checks.c19 import spring_fc
+    ph = geometries.phonopy_obj(gid, sid)
+    ph.force_constants = spring_fc(ph, seed=12)
+    dm = ph.dynamical_matrix
+    dm.run(np.zeros(3))
+    D0 = dm.dynamical_matrix
+    m = ph.primitive.masses
+    worst = 0.0
+    for g in range(3):
+        v = np.zeros(3 * len(m))
+        for j in range(len(m)):
+            v[3 * j + g] = np.sqrt(m[j])
+        worst = max(worst, float(np.abs(D0 @ v).max()))
+    return worst > 1e-8, "force constants obeying the acoustic sum rule: D(0) applied to the uniform translation (sqrt(m_j) e_alpha) is %.3g, not zero (%s/%s)" % (worst, gid, sid)
 
 
 @symnp.outside_session
